@@ -31,7 +31,7 @@ The kind of a name is fixed by its spelling, so it is flow-insensitive:
   lo variables  x0..x3 (data) p0 p1 (set) e0 e1 (loop / with targets) a0 a1 (macro parameters)
   hi variables  r0 r1 (set / set block) g0 (loop target) h0 (macro parameter)
   macros        m0..m2: result lo in rich mode (body emits no hi), hi in neutral mode;  u0 u1: result hi
-  other data    l0 l1 (lists of strings) d0 (dict) rows (list of dicts k/n/g) tree (rows with children c) n0 n1 (ints)
+  other data    k0 (attribute name with metacharacters) dk (dict with such keys) l0 l1 (lists of strings) d0 (dict) rows (list of dicts k/n/g) tree (rows with children c) n0 n1 (ints)
 
 Never generated: the safe filter, Markup data, autoescape-false regions, gettext, blocks lexically inside an
 autoescape region (the printer wraps block *bodies* instead; see C15 finding), lipsum.
@@ -62,6 +62,8 @@ PIECES = [
     "%d", "{}", "{0}", "{", "}}", "\\", "/", ";", "\n", "\t", "-", ".", ",", "(", ")", "http://ex.org/p?a=1&b=2", "https://ex.org/<i>",
     "www.ex.org", "me@ex.io", "mailto:me@ex.io", "tel:+1", "é", "中", "​<", "\x0c", "#", "?", "@", ":", "|",
 ]
+KEY_META = ["<", '"', "'", "&"]
+KEY_PIECES = ["<", '"', "'", "&", "&lt;", "&amp;", "on", "x", "-", "data-", "<<", "&#39;"]
 TEXTS = ["a", "-", " ", ".", ":", "[", "]", "(", ")", "x y", "0", "|", "/", "!", "+", ",", "T", "_", "*", "~"]
 XKEYS = ["id", "class", "data-v", "title", "k2"]
 ROWKEYS = ("k", "n", "g")
@@ -112,7 +114,7 @@ def pe(e):
     if k == "tuple":
         return "(" + "".join(pe(x) + ", " for x in e[1]) + ")"
     if k == "dict":
-        return "{" + ", ".join("%s: %s" % (lit(key), pe(x)) for key, x in e[1]) + "}"
+        return "{" + ", ".join("%s: %s" % (pe(key) if isinstance(key, list) else lit(key), pe(x)) for key, x in e[1]) + "}"
     if k == "bin":
         return "(%s %s %s)" % (pe(e[2]), e[1], pe(e[3]))
     if k == "hcat":
@@ -451,6 +453,10 @@ class _Gen:
     def token(self):
         self.ntok += 1
         return "zq%dz" % (900 + self.ntok)  # literals: 901.. ; data strings use 1..
+
+    def rich_key(self):
+        """A literal attribute name: key pieces, META (not >), token."""
+        return "".join(self.pick(KEY_PIECES) for _ in range(self.i(0, 2))) + self.pick(KEY_META) + self.token()
 
     def rich(self):
         """A literal string: pieces META token META pieces."""
@@ -819,6 +825,20 @@ class _Gen:
         if k == "urlize":
             args, kwargs = self.filter_args(lex, "urlize", 1)
             return ["f", "urlize", self.lo_s(lex, 1), args, kwargs]
+        if k == "xmlattr" and self.chance(1, 3):
+            # attribute names that are data: a context string (k0), the keys of a context dict (dk) or a rich string literal;
+            # they hold < " ' & but none of the characters xmlattr rejects (whitespace / > =) and end in their token
+            kk = self.pick(("k0", "dk", "lit", "mixed"))
+            if kk == "dk":
+                dd = ["v", "dk"]
+            else:
+                key = ["v", "k0"] if kk == "k0" else self.rich_key()
+                items = [[key, self.lo_s(lex, 0)]]
+                if kk == "mixed":
+                    items.insert(self.i(0, 1), [self.pick(XKEYS), self.lo_s(lex, 0)])
+                dd = ["dict", items]
+            args, kwargs = self.filter_args(lex, "xmlattr", 0)
+            return ["f", "xmlattr", dd, args, kwargs]
         if k == "xmlattr":
             dd = ["v", "d0"] if self.chance(1, 3) else ["dict", [[key, self.pick((self.lo_s(lex, 1), self.int_e(lex), ["none"], ["v", "nope"], self.lo_s(lex, 0)))]
                                                              for key in XKEYS if self.chance(1, 2)]]
@@ -839,9 +859,15 @@ class _Gen:
     def hi_s(self, lex, d=2):
         if d <= 0:
             return self.hi_atom(lex)
-        k = self.weighted([("atom", 12), ("cat", 6), ("add", 2), ("mul", 1), ("cond", 2), ("filter", 3), ("join", 4)])
+        k = self.weighted([("atom", 12), ("cat", 6), ("add", 2), ("mul", 1), ("cond", 2), ("filter", 3), ("join", 4), ("replace", 2)])
         if k == "atom":
             return self.hi_atom(lex)
+        if k == "replace":
+            # a plain value whose occurrences of a plain search string are replaced by a fragment: the value is escaped and
+            # the fragment inserted as is.  The search string avoids the characters of the five entities (& # ; a m p l t g 3 4 9),
+            # so it matches at the same places before and after escaping.
+            args = [["s", self.pick(("z", "q", "@", " ", "Q", "-", "zq", "1z"))], self.hi_s(lex, d - 1)]
+            return ["f", "replace", self.lo_s(lex, d - 1), args + ([["i", self.i(0, 3)]] if self.chance(1, 4) else []), []]
         if k == "cat":
             a, b = self.hi_s(lex, d - 1), self.any_s(lex, d - 1)
             if self.chance(1, 2):
@@ -1324,7 +1350,7 @@ URL_FORMS = ["see http://ex.org/p?a=1&b=<%s>&c='x' now", "(www.%s.org), <www.ex.
 @st.composite
 def datas(draw):
     """Render data: every string is ``piece* META token META piece*`` with a unique token zq<N>z (N < 900)."""
-    t = _Tape(draw(st.binary(min_size=160, max_size=160)))
+    t = _Tape(draw(st.binary(min_size=192, max_size=192)))
     counter = [0]
 
     def rich():
@@ -1358,6 +1384,12 @@ def datas(draw):
             node["c"].append({"k": rich(), "n": 2, "g": "b<", "c": []})
         tree.append(node)
     data["tree"] = tree
+    def key():
+        counter[0] += 1
+        return "".join(t.pick(KEY_PIECES) for _ in range(t.i(0, 2))) + t.pick(KEY_META) + "zq%dz" % counter[0]
+
+    data["k0"] = key()
+    data["dk"] = {key(): rich() for _ in range(t.i(1, 2))}
     data["n0"] = t.i(0, 12)
     data["n1"] = t.pick([2, 0, 1, 3, 30])
     return data
